@@ -50,6 +50,8 @@ def runEval (line : String) : String :=
     match readProgram sx with
     | some p => result "MODEL-SKIP" (refVerdict p)
     | none => result "MODEL-SKIP" "any"
+  -- `eval <hex>` without an AST: the expectation comes from the case generator (limit programs, C14)
+  | [_] => result "MODEL-SKIP" "any"
   | _ => "bad-op"
 
 end P2sh.Driver.LangDrv
